@@ -260,4 +260,100 @@ def trainRun (maxKeep : Nat) (d : Dir Nat) (numSteps spc : Nat) : Except Err (Li
     let steps := (trainLoop offset numSteps spc).map (·.1)
     .ok (steps, saveAll maxKeep d ((trainSaves offset numSteps spc).map (fun s => (s, s))))
 
+/-! ## 6. `BasicFlaxTrainer`: derived counters, one session (constructor + `train()`), chains of sessions -/
+
+/-- what `configure_steps` / `configure_reporting` read from the configuration dictionary and the data sets -/
+structure TrainCfg where
+  lenTrain : Nat               -- train_ds["image"].shape[0]
+  lenTest : Nat                -- test_ds["image"].shape[0]
+  batchSize : Nat              -- config["batch_size"]
+  numEpochs : Nat              -- config["num_epochs"]
+  spcOpt : Option Nat          -- config["steps_per_checkpoint"] when present
+  logOpt : Option Nat          -- config["log_every_steps"] when present
+  evalOpt : Option Nat         -- config["steps_per_eval"] when present
+  checkpointing : Bool         -- config["checkpointing"] (default False)
+  hasVars0 : Bool              -- `variables0` given: the constructor does not restore
+  logflag : Bool               -- config["log"]: `update_metrics` does something only then
+
+/-- `self.steps_per_epoch = len_train // batch_size` -/
+def TrainCfg.spe (c : TrainCfg) : Nat := c.lenTrain / c.batchSize
+/-- `self.num_steps = int(self.steps_per_epoch * num_epochs)` -/
+def TrainCfg.numSteps (c : TrainCfg) : Nat := c.spe * c.numEpochs
+/-- `self.steps_per_checkpoint` (default `steps_per_epoch * 10`) -/
+def TrainCfg.spc (c : TrainCfg) : Nat := match c.spcOpt with | some v => v | none => c.spe * 10
+/-- `self.log_every_steps` (default `steps_per_epoch * 20`) -/
+def TrainCfg.logEvery (c : TrainCfg) : Nat := match c.logOpt with | some v => v | none => c.spe * 20
+/-- `self.steps_per_eval` (default `len_test // batch_size`) -/
+def TrainCfg.stepsPerEval (c : TrainCfg) : Nat := match c.evalOpt with | some v => v | none => c.lenTest / c.batchSize
+
+/-- what happens in one iteration of `for step, batch in zip(range(step_offset, num_steps), train_dt_iter)` -/
+structure StepEv where
+  step : Nat         -- the step number handed to `p_train_step` (= `state.step` before the update)
+  batch : Nat        -- 0-based index of the batch drawn from THIS session's training iterator
+  logged : Bool      -- `(step + 1) % log_every_steps == 0`  → `update_metrics`
+  epoch : Nat        -- `step // steps_per_epoch`, reported by `update_metrics`
+  ckpt : Bool        -- `(step + 1) % steps_per_checkpoint == 0 or step + 1 == num_steps` → `self.checkpoint(state)`
+deriving DecidableEq, Repr
+
+/-- `initialize_training_state`: restore only `if self.checkpointing and variables0 is None` (with
+    `ok_no_ckpt=True`); the train state is abstracted to its step counter, a new state has step 0 -/
+def sessionOffset (c : TrainCfg) (d : Dir Nat) : Except Err Nat :=
+  if c.checkpointing && !c.hasVars0 then restore d 0 true else .ok 0
+
+/-- the loop of `train()`.  The two modulo tests raise `ZeroDivisionError` in the first iteration when the
+    divisor is 0 (guarded here, not totalised); an empty loop evaluates neither. -/
+def sessionLoop (c : TrainCfg) (offset : Nat) : Except Err (List StepEv) :=
+  if offset < c.numSteps ∧ (c.logEvery = 0 ∨ c.spc = 0) then .error .other
+  else .ok ((List.range' offset (c.numSteps - offset)).map (fun step =>
+    { step := step, batch := step - offset, logged := (step + 1) % c.logEvery == 0, epoch := step / c.spe,
+      ckpt := (step + 1) % c.spc == 0 || step + 1 == c.numSteps }))
+
+structure SessionOut where
+  offset : Nat
+  events : List StepEv
+  evalBatches : Nat            -- batches drawn from the evaluation iterator (`steps_per_eval` per logged step)
+  dir : Dir Nat
+
+/-- constructor + one `train()` of a `BasicFlaxTrainer` against the checkpoint directory `d` -/
+def trainSession (maxKeep : Nat) (c : TrainCfg) (d : Dir Nat) : Except Err SessionOut :=
+  if c.batchSize = 0 then .error .other            -- `len_train // batch_size`
+  else
+    match sessionOffset c d with
+    | .error e => .error e
+    | .ok offset =>
+      match sessionLoop c offset with
+      | .error e => .error e
+      | .ok evs =>
+        let saves := ((evs.filter (·.ckpt)).map (·.step + 1)) ++ [max offset c.numSteps]
+        let d' := if c.checkpointing then saveAll maxKeep d (saves.map (fun s => (s, s))) else d
+        let ev := if c.logflag then c.stepsPerEval * (evs.filter (·.logged)).length else 0
+        .ok ⟨offset, evs, ev, d'⟩
+
+/-- a second `train()` on the SAME trainer object: `self.state` is not written back by `train()`, so the
+    loop starts from the same offset again; only the directory has changed -/
+def trainAgain (maxKeep : Nat) (c : TrainCfg) (o : SessionOut) : Except Err SessionOut :=
+  match sessionLoop c o.offset with
+  | .error e => .error e
+  | .ok evs =>
+    let saves := ((evs.filter (·.ckpt)).map (·.step + 1)) ++ [max o.offset c.numSteps]
+    let d' := if c.checkpointing then saveAll maxKeep o.dir (saves.map (fun s => (s, s))) else o.dir
+    let ev := if c.logflag then c.stepsPerEval * (evs.filter (·.logged)).length else 0
+    .ok ⟨o.offset, evs, ev, d'⟩
+
+/-- successive trainer objects (program runs) sharing one checkpoint directory: executed step numbers of each -/
+def trainChain (maxKeep : Nat) : Dir Nat → List TrainCfg → Except Err (List (List Nat) × Dir Nat)
+  | d, [] => .ok ([], d)
+  | d, c :: cs =>
+    match trainSession maxKeep c d with
+    | .error e => .error e
+    | .ok o =>
+      match trainChain maxKeep o.dir cs with
+      | .error e => .error e
+      | .ok (outs, d') => .ok (o.events.map (·.step) :: outs, d')
+
+/-- Specification of a chain: session `i` executes `s … Nᵢ−1` where `s` is the largest target so far -/
+def specChain : Nat → List Nat → List (List Nat)
+  | _, [] => []
+  | s, n :: ns => List.range' s (n - s) :: specChain (max s n) ns
+
 end Scico.Flax
